@@ -311,7 +311,19 @@ func c01(c *fw.Ctx) {
 				class, mode = "utf8-nohint", qrref.Byte
 				o.text, _, _ = qrPayload(rng, qrref.Byte, maxLen)
 				nUnits = maxLen
-				if rng.Intn(6) == 0 { // text that BEGINS with U+FEFF (a decoder must not take it for a byte order mark)
+				if rng.Intn(5) == 0 {
+					// ASCII text that is ALMOST alphanumeric-mode material: characters of the 45-set
+					// plus one or two ASCII characters just outside it (comma, quotes, brackets, ...):
+					// byte mode, and every character comes back as itself
+					b := []byte(fromAlphabet(rng, "0123456789ABCDEFGHIJKLMNOPQRSTUVWXYZ $%*+-./:", maxLen))
+					outside := "!\"#&'(),;<=>?@[\\]^_`{|}~"
+					for k := 1 + rng.Intn(2); k > 0; k-- {
+						b[rng.Intn(len(b))] = outside[rng.Intn(len(outside))]
+					}
+					o.text = string(b)
+					nUnits = maxLen
+					class = "ascii-almost-45-set"
+				} else if rng.Intn(6) == 0 { // text that BEGINS with U+FEFF (a decoder must not take it for a byte order mark)
 					o.text = "\ufeff" + o.text
 					nUnits += 3
 					class = "utf8-nohint-leading-feff"
@@ -400,7 +412,7 @@ func c01(c *fw.Ctx) {
 	c.Floor("matrix_path_ok", 2500)
 	c.Floor("image_path_ok", 2500)
 	c.Floor("image_path_through_go_image_types", 1000)
-	for _, cl := range []string{"digits", "alphanumeric", "latin1-all-bytes", "utf8-nohint", "utf8-nohint-leading-feff", "kanji", "boundary-numeric", "boundary-alphanumeric", "boundary-byte", "boundary-kanji"} {
+	for _, cl := range []string{"digits", "alphanumeric", "latin1-all-bytes", "utf8-nohint", "utf8-nohint-leading-feff", "ascii-almost-45-set", "kanji", "boundary-numeric", "boundary-alphanumeric", "boundary-byte", "boundary-kanji"} {
 		c.Floor("class_"+cl, 50)
 	}
 	for v := 1; v <= 40; v++ {
